@@ -129,7 +129,7 @@ func registerNativeCallouts() {
 	intrinsics["(net.IP).String"] = func(in *Interp, _ *Frame, _ *ssa.Function, a []Value) (Value, bool) {
 		v, ok := in.toNative(a[0], reflect.TypeOf([]byte(nil)))
 		if !ok {
-			return Str{s: "<sym-ip>"}, true
+			return Str{s: in.symPlaceholder()}, true
 		}
 		return Str{s: net.IP(v.Bytes()).String()}, true
 	}
